@@ -1,6 +1,6 @@
 //! C01 YUV->RGB decoding equals the H.273 definition for every code triple.
 
-use crate::api::{cfg, cfg_from_json, cfg_json, frame444};
+use crate::api::{cfg, cfg_from_json, cfg_json, frame444_pads};
 use crate::engine::*;
 use crate::gen::{depth_storage, expand_codes, std_matrix};
 use crate::oracle::{self, mc_name, STD_MC};
@@ -16,6 +16,8 @@ pub struct Case {
     pub u8_storage: bool,
     pub by_value: bool,
     pub codes: Codes,
+    /// rows and per-plane paddings of the frame (None: one row, no padding)
+    pub layout: Option<(usize, [(usize, usize); 3])>,
 }
 #[derive(Debug, Clone)]
 pub enum Codes {
@@ -24,14 +26,29 @@ pub enum Codes {
 }
 impl Case {
     pub fn expand(&self) -> Vec<[u16; 3]> {
-        match &self.codes {
+        let mut v = match &self.codes {
             Codes::Seeded { stratum, seed, n } => expand_codes(self.cfg.bit_depth, *stratum, *seed, *n),
             Codes::Explicit(v) => v.clone(),
+        };
+        if let Some((h, _)) = self.layout {
+            let h = h.clamp(1, v.len().max(1));
+            let w = (v.len() / h).max(1);
+            v.truncate(w * h);
+        }
+        v
+    }
+    pub fn dims(&self, n: usize) -> (usize, usize, [(usize, usize); 3]) {
+        match self.layout {
+            Some((h, pads)) => {
+                let h = h.clamp(1, n.max(1));
+                ((n / h).max(1), h, pads)
+            }
+            None => (n, 1, [(0, 0); 3]),
         }
     }
     fn json_with(&self, codes: &[[u16; 3]]) -> Value {
         json!({"prop":"C01","cfg":cfg_json(&self.cfg),"storage": if self.u8_storage {"u8"} else {"u16"},
-               "by_value": self.by_value, "codes": codes})
+               "by_value": self.by_value, "codes": codes, "layout": if codes.len() == 1 { None } else { self.layout }})
     }
 }
 
@@ -41,7 +58,7 @@ pub fn strategy() -> BoxedStrategy<Case> {
         any::<bool>(),
         depth_storage(),
         any::<bool>(),
-        0u8..5,
+        0u8..6,
         any::<u64>(),
         1usize..=256,
         // labels are carried through unchanged; any supported pair
@@ -53,12 +70,20 @@ pub fn strategy() -> BoxedStrategy<Case> {
             u8_storage: u8s,
             by_value,
             codes: Codes::Seeded { stratum, seed, n },
+            layout: {
+                let (_, h, pads) = crate::gen::layout_for(seed, n);
+                Some((h, pads))
+            },
         })
         .boxed()
 }
 
 fn decode<T: Pixel>(c: &YuvConfig, codes: &[[u16; 3]], by_value: bool) -> Result<Rgb, String> {
-    let frame = frame444::<T>(codes, codes.len(), 1, 0, 0);
+    decode_layout::<T>(c, codes, by_value, codes.len(), 1, [(0, 0); 3])
+}
+
+fn decode_layout<T: Pixel>(c: &YuvConfig, codes: &[[u16; 3]], by_value: bool, w: usize, h: usize, pads: [(usize, usize); 3]) -> Result<Rgb, String> {
+    let frame = frame444_pads::<T>(codes, w, h, pads);
     let yuv = Yuv::<T>::new(frame, *c).map_err(|e| format!("Yuv::new rejected a well-formed frame: {e:?}"))?;
     let r = if by_value { Rgb::try_from(yuv) } else { Rgb::try_from(&yuv) };
     r.map_err(|e| format!("decode failed: {e:?}"))
@@ -86,11 +111,12 @@ pub fn check(case: &Case, st: &mut Stats) -> Result<(), Violation> {
         message: msg,
         case: case.json_with(codes),
     };
+    let (w, h, pads) = case.dims(codes.len());
     let res = catch(|| {
         if case.u8_storage {
-            decode::<u8>(c, &codes, case.by_value)
+            decode_layout::<u8>(c, &codes, case.by_value, w, h, pads)
         } else {
-            decode::<u16>(c, &codes, case.by_value)
+            decode_layout::<u16>(c, &codes, case.by_value, w, h, pads)
         }
     });
     let rgb = match res {
@@ -99,7 +125,7 @@ pub fn check(case: &Case, st: &mut Stats) -> Result<(), Violation> {
         Ok(Ok(r)) => r,
     };
     st.evaluations += 1;
-    if rgb.width() != codes.len() || rgb.height() != 1 || rgb.data().len() != codes.len() {
+    if rgb.width() != w || rgb.height() != h || rgb.data().len() != codes.len() {
         return Err(fail(format!("dimensions changed: {}x{} len {}", rgb.width(), rgb.height(), rgb.data().len()), &codes));
     }
     if rgb.transfer() != c.transfer_characteristics || rgb.primaries() != c.color_primaries {
@@ -126,6 +152,13 @@ pub fn check(case: &Case, st: &mut Stats) -> Result<(), Violation> {
                         Err(_) => false,
                     }
                 };
+                if !bad(*code) {
+                    // the pixel decodes correctly on its own: the failure depends on the image (layout, neighbours)
+                    return Err(fail(
+                        format!("pixel #{i} {:?} decodes wrongly only inside this {w}x{h} image (paddings {:?}): got {:?}, H.273 gives {:?}; cfg {}", code, pads, got, want, cfg_json(c)),
+                        &codes,
+                    ));
+                }
                 let small = minimize_codes(*code, [16u16 << (c.bit_depth - 8), half, half], bad);
                 if small != *code && bad(small) {
                     let w2 = reference(c, small);
@@ -211,6 +244,7 @@ fn exhaustive_8bit(ctx: &Ctx, st: &mut Stats) -> Vec<Violation> {
                 u8_storage: u8s,
                 by_value: false,
                 codes: Codes::Explicit(codes),
+                layout: Some((256, [(0, 0), (y as usize % 5, 0), (0, 1)])),
             };
             let mut local = Stats::new();
             local.sample_budget = 0;
@@ -262,7 +296,7 @@ fn deep_sweeps(ctx: &Ctx, st: &mut Stats) -> Vec<Violation> {
                             p[axis] = x as u16;
                             codes.push(p);
                         }
-                        let case = Case { cfg: c, u8_storage: false, by_value: false, codes: Codes::Explicit(codes) };
+                        let case = Case { cfg: c, u8_storage: false, by_value: false, codes: Codes::Explicit(codes), layout: None };
                         let mut local = Stats::new();
                         local.sample_budget = 0;
                         if let Err(v) = check(&case, &mut local) {
@@ -281,7 +315,8 @@ fn deep_sweeps(ctx: &Ctx, st: &mut Stats) -> Vec<Violation> {
                     cfg: c,
                     u8_storage: false,
                     by_value: false,
-                    codes: Codes::Seeded { stratum: 0, seed: mix64(ctx.seed ^ (j << 20) ^ chunk), n: 65536 },
+                    codes: Codes::Seeded { stratum: if chunk % 4 == 3 { 5 } else { 0 }, seed: mix64(ctx.seed ^ (j << 20) ^ chunk), n: 65536 },
+                    layout: Some((64, [(0, 0), (chunk as usize % 3, 0), (0, 0)])),
                 };
                 let mut local = Stats::new();
                 local.sample_budget = 0;
@@ -306,8 +341,9 @@ pub fn replay(v: &Value) -> Result<(), String> {
         u8_storage: v.get("storage").and_then(|s| s.as_str()) == Some("u8"),
         by_value: v.get("by_value").and_then(|s| s.as_bool()).unwrap_or(false),
         codes: Codes::Explicit(codes),
+        layout: v.get("layout").and_then(|l| serde_json::from_value(l.clone()).ok()).flatten(),
     };
     check(&case, &mut Stats::new()).map_err(|v| v.message)
 }
 
-pub const RULE: &str = "cases = (matrix in 7 standard, range, depth 8..16, storage, by-ref/by-value, batch of 1..256 code triples from 5 strata: uniform, boundary codes, single-axis sweep, mixed, near-neutral chroma) generated by proptest, plus enumerated 8-bit (Y-plane = 65536 triples) and deep sweeps; each pixel compared with the f64 H.273 formula (tol 3e-6); non-trivial = batch containing a pixel whose chroma codes are not both 2^(n-1) (so the matrix matters); distinct = by hash of (config, batch)";
+pub const RULE: &str = "cases = (matrix in 7 standard, range, depth 8..16, storage, by-ref/by-value, batch of 1..256 code triples from 6 strata: uniform, boundary codes, single-axis sweep, mixed, near-neutral chroma, related neighbours; laid out in 1..4 rows with independent per-plane paddings 0..32) generated by proptest, plus enumerated 8-bit (Y-plane = 65536 triples) and deep sweeps; each pixel compared with the f64 H.273 formula (tol 3e-6); non-trivial = batch containing a pixel whose chroma codes are not both 2^(n-1) (so the matrix matters); distinct = by hash of (config, batch)";
